@@ -257,6 +257,30 @@ func extractC08(c *ctx) (Facts, error) {
 					indexOf(st, func(s string) bool { return s == hv+".messagesCh = "+res }) > i
 			}
 		}
+		// the decorators are applied inside the one loop over the handlers, after its `if h.started { continue }`
+		// (a handler that is already running must not be wrapped again by a later RunHandlers call)
+		loops, guarded := 0, false
+		for _, st := range fd.Body.List {
+			rs, ok := st.(*ast.RangeStmt)
+			if !ok || !strings.Contains(c.src(rs.Body), ".decorateHandlerPublisher(") && !strings.Contains(c.src(rs.Body), ".decorateHandlerSubscriber(") {
+				continue
+			}
+			loops++
+			skipAt, decAt := -1, -1
+			for k, b := range rs.Body.List {
+				if is, ok := b.(*ast.IfStmt); ok && is.Init == nil && is.Else == nil && strings.HasSuffix(c.src(is.Cond), ".started") &&
+					len(is.Body.List) == 1 && c.src(is.Body.List[0]) == "continue" && skipAt < 0 {
+					skipAt = k
+				}
+				if strings.Contains(c.src(b), ".decorateHandlerPublisher(") || strings.Contains(c.src(b), ".decorateHandlerSubscriber(") {
+					if decAt < 0 {
+						decAt = k
+					}
+				}
+			}
+			guarded = skipAt >= 0 && decAt > skipAt
+		}
+		facts["runhandlers_decorates_only_unstarted"] = loops == 1 && guarded
 		facts["runhandlers_subscribes_own_subscriber_own_topic"] = ok
 		facts["runhandlers_runs_same_handler"] = hv != "" && indexOf(st, has(hv+".run(ctx, ")) > i
 	}
